@@ -1,11 +1,13 @@
 (* C06  No avoidable waiting: work starts, proceeds and ends as early as the
    rules allow.  Statements only; proofs in Proofs/C02Proof.v,
    Proofs/FinishComplete.v, Proofs/C06Proof.v, Proofs/C06Max.v.
-   PARTIAL: the idle-worker clause (c) is proved for tasks that need no
-   facility; for facility tasks it is searched by the oracle. *)
+   The idle-worker clause (c) is proved for tasks that need no facility and,
+   in the form "no idle worker-facility pair", for tasks that need one (with
+   respect to the workplace at which the task's component sat when the task
+   was served; the oracle searches the same clause on the final placement). *)
 From Coq Require Import List ZArith QArith Bool Arith.
 From PV Require Import Model.Types Model.Sim Model.Example Proofs.Base Proofs.RunLemmas Proofs.C01Proof
-  Proofs.C02Proof Proofs.FinishComplete Proofs.C06Proof Proofs.C06Max.
+  Proofs.C02Proof Proofs.FinishComplete Proofs.C06Proof Proofs.C06Max Proofs.C06Fac.
 Import ListNotations.
 Open Scope nat_scope.
 
@@ -41,6 +43,24 @@ Theorem C06_no_idle_eligible_worker : forall c o s t w,
 Proof. exact no_idle_eligible_worker. Qed.
 Print Assumptions C06_no_idle_eligible_worker.
 
+(* (c) for a task that needs a facility: cand = l1 ++ t :: l2 is the priority
+   order of this __allocate and p the workplace at which the component of t
+   sits when t is served (after the tasks l1 and after t's own placement
+   attempt).  No worker that was FREE and received nothing can be added to t
+   together with a facility of p that was FREE, has the skill and targets t:
+   can_add_resources(t, w, f) is False in the state reached -- for facilities
+   that went to t or to somebody else in the meantime as well *)
+Theorem C06_no_idle_eligible_pair : forall c o s l1 t l2 p w f,
+  sort_tasks c (o_rule o) s (filter (fun t => is_ready (st (td s t)) || is_working (st (td s t))) (tasks c)) = l1 ++ t :: l2 ->
+  t_auto c t = false -> t_needfac c t = true ->
+  served_at c l1 s (filter (fun w => rstate_eqb (rst (wd s w)) RFree) (all_workers c)) t = Some p ->
+  In f (wp_facs c p) -> rst (fd s f) = RFree -> has_fskill c f t = true -> f_targets c f t = true ->
+  In w (all_workers c) -> rst (wd s w) = RFree -> asg (wd (allocate c o s) w) = asg (wd s w) ->
+  has_wskill c w t = true -> w_targets c w t = true ->
+  can_add c (allocate c o s) t w (Some f) = false.
+Proof. exact no_idle_eligible_pair. Qed.
+Print Assumptions C06_no_idle_eligible_pair.
+
 (* (d) a task whose remaining work has reached zero and whose finish
    dependencies hold is FINISHED at the very next __update, independently of
    the order of the task list *)
@@ -56,3 +76,14 @@ Theorem C06_check_working_closed_form : forall c s t,
   if (t <? nT c) && cw_target c s t && is_ready (st (td s t)) then TWorking else st (td s t).
 Proof. exact stof_check_working. Qed.
 Print Assumptions C06_check_working_closed_form.
+
+(* non-vacuity of the pair clause: in the two-component assembly project at
+   step 0 the priority order is [0; 1], task 0 needs a facility, is served at
+   workplace 0 and receives worker 0 with facility 0 *)
+Example C06_pair_example :
+  let s := absence_update ex_pl_cfg true (update ex_pl_cfg ex_pl_opts (initialize ex_pl_cfg ex_pl_opts (blank ex_pl_cfg))) in
+  sort_tasks ex_pl_cfg (o_rule ex_pl_opts) s (filter (fun t => is_ready (st (td s t)) || is_working (st (td s t))) (tasks ex_pl_cfg)) = [0; 1]
+  /\ served_at ex_pl_cfg [] s (filter (fun w => rstate_eqb (rst (wd s w)) RFree) (all_workers ex_pl_cfg)) 0 = Some 0
+  /\ t_needfac ex_pl_cfg 0 = true /\ t_auto ex_pl_cfg 0 = false
+  /\ aw (td (allocate ex_pl_cfg ex_pl_opts s) 0) = [0] /\ af (td (allocate ex_pl_cfg ex_pl_opts s) 0) = [0].
+Proof. vm_compute. repeat split. Qed.
